@@ -66,7 +66,12 @@ bool is_sim_path(const char *p) {
     return n > 0 && strncmp(p, g_dir->c_str(), n) == 0;
 }
 
-int path_index(const char *p, bool create) {
+int path_index(const char *p0, bool create) {
+    // a symbolic link inside the simulation directory stands for its target: both names are one file
+    char target[512];
+    const char *p = p0;
+    long n = rsys(SYS_readlink, (long) p0, (long) target, (long) sizeof(target) - 1);
+    if (n > 0) { target[n] = 0; p = target; }
     for (int i = 0; i < g_npaths; i++)
         if (g_paths[i]->path == p) return i;
     if (!create || g_npaths >= MAXPATH) return -1;
